@@ -1,6 +1,6 @@
 """C20 — Same behaviour in every feature configuration, up to documented differences."""
 import os, subprocess
-from verifkit.runner import Stream, HARNESS, ENV, Lock, log
+from verifkit.runner import Stream, HARNESS, ENV, Lock, log, cargo_extra_args, target_dir
 from verifkit import gen, wiregen as W
 
 ID = "C20"
@@ -21,7 +21,7 @@ TYPED = ["opt(u8)", "tup(u8,i16,bool)", "arr(3,u16)", "fields(u32,u32)", "durati
 
 
 def cfg_bin(name):
-    return os.path.join(CFGDIR, "target", "cfg_" + name, "release", "hcfg")
+    return os.path.join(target_dir(os.path.join(CFGDIR, "target", "cfg_" + name)), "release", "hcfg")
 
 
 def prepare(seed, tier):
@@ -30,8 +30,8 @@ def prepare(seed, tier):
         if not os.path.exists(lock):
             import shutil; shutil.copy("/repo/Cargo.lock", lock)
         for name, feats in CONFIGS:
-            cmd = ["cargo", "build", "--release", "--offline", "--no-default-features", "--features", feats,
-                   "--target-dir", os.path.join("target", "cfg_" + name)]
+            cmd = ["cargo", "build", "--release", "--offline", "--no-default-features", "--features", feats] + \
+                  cargo_extra_args(os.path.join(CFGDIR, "target", "cfg_" + name))
             p = subprocess.run(cmd, cwd=CFGDIR, env=ENV, stdout=subprocess.PIPE, stderr=subprocess.STDOUT, text=True)
             if p.returncode != 0:
                 log(p.stdout[-3000:])
